@@ -181,6 +181,20 @@ def replay_subsample(inputs, label, n, mode, b, max_cand, exclude):
     return False, "not reproduced"
 
 
+def validate_parallel(inputs, n, mode, n_jobs, cpus):
+    s = pl.real_scenario(inputs, n, mode)
+    env = pl.Env()
+    _parallel(env, s, n_jobs, cpus, table=inputs.get("__clf__"))
+    return sorted(env.violated)
+
+
+def validate_subsample(inputs, n, mode, b, max_cand, exclude):
+    s = pl.real_scenario(inputs, n, mode)
+    env = pl.Env()
+    _subsample(env, s, b, max_cand, exclude, table=inputs.get("__clf__"))
+    return sorted(env.violated)
+
+
 def _cfg_par(tier):
     out = []
     for n in ([3] if tier == "quick" else [3, 4]):
@@ -207,6 +221,8 @@ HARNESSES = [
     Harness("parallel_wrapper", sym_parallel, replay_parallel, _cfg_par, pl.BASE_UNITS + UNITS[:1] + UNITS[2:], required_witnesses=("ran",)),
     Harness("subsampling_wrapper", sym_subsample, replay_subsample, _cfg_sub, pl.BASE_UNITS + UNITS[1:], required_witnesses=("ran",)),
 ]
+HARNESSES[0].validate = validate_parallel
+HARNESSES[1].validate = validate_subsample
 BOUNDS = dict(quick="n = 3, candidate modes None / index subsets / 2 feature rows; parallel: n_jobs in {1,2,3,-1} with cpu_count in "
                     "{2,8}; sub-sampling: max_candidates in {1,2,0.5} x exclude_non_subsample x batch_size in {1,2}",
               thorough="n in {3,4}; max_candidates in {1,2,3,0.5,0.34,1.0}",
